@@ -194,5 +194,7 @@ class Sandbox:
             if not line.strip():
                 continue
             a, c, d, m = line.split("\t")
-            rows.append([a, c, int(round(float(d) * 100)), int(round(float(m) * 100000))])
+            # NaN / inf are data (never a valid distance or proportion): recorded as -1
+            fin = lambda x, sc: int(round(float(x) * sc)) if float(x) == float(x) and abs(float(x)) != float("inf") else -1
+            rows.append([a, c, fin(d, 100), fin(m, 100000)])
         return self.emit("distance", ctx, ok=True, rows=rows)
